@@ -593,6 +593,14 @@ func (ex *Exec) runTop(st Stmt) *Result {
 		return &Result{Tag: "DROP INDEX"}
 	case *RenameIndex:
 		for _, t := range ex.db.tables {
+			var kept []*UniqueIdx
+			for _, u := range t.Uniques {
+				if u.Name == n.To {
+					continue // replaced by the renamed index
+				}
+				kept = append(kept, u)
+			}
+			t.Uniques = kept
 			for _, u := range t.Uniques {
 				if u.Name == n.From {
 					u.Name = n.To
@@ -729,4 +737,34 @@ func (db *DB) scanDDL(name, text string, toks []token) (err error) {
 		p.next()
 	}
 	return nil
+}
+
+// Catalog returns a printable summary (functions, triggers, unique indexes) for diagnostics and evidence
+func (db *DB) Catalog() []string {
+	var out []string
+	var names []string
+	for k := range db.tables {
+		names = append(names, k)
+	}
+	sort.Strings(names)
+	for _, k := range names {
+		t := db.tables[k]
+		for _, tr := range t.Triggers {
+			out = append(out, fmt.Sprintf("trigger %s: %s %s %s -> %s", k, tr.Name, tr.Timing, tr.Event, tr.Func))
+		}
+		for _, u := range t.Uniques {
+			cols := []string{}
+			for _, c := range u.Cols {
+				cols = append(cols, t.colNames[c])
+			}
+			out = append(out, fmt.Sprintf("unique %s: %s (%s) partial=%v", k, u.Name, strings.Join(cols, ","), u.Where != nil))
+		}
+	}
+	var fns []string
+	for k := range db.funcs {
+		fns = append(fns, k)
+	}
+	sort.Strings(fns)
+	out = append(out, "functions: "+strings.Join(fns, " "))
+	return out
 }
